@@ -123,7 +123,7 @@ func init() {
 		"C15": {"panic_before_writing", "panic_after_status", "panic_after_partial_body", "client.write_error", "pool.stale_pick"}}
 	propWorld["C05"] = "httpworld"
 	propWorld["C15"] = "httpworld"
-	worlds["logworld"].probes = map[string][]string{"*": {"line_over_pool_limit", "siblings_of_derived_parent", "inline_group", "below_threshold", "slow_write", "folded_compared", "pool.miss_with_items", "pool.stale_pick", "sink.short_write", "sink.write_error"}}
+	worlds["logworld"].probes = map[string][]string{"*": {"line_over_pool_limit", "long_key_path", "empty_derivation", "siblings_of_derived_parent", "inline_group", "below_threshold", "slow_write", "folded_compared", "pool.miss_with_items", "pool.stale_pick", "sink.short_write", "sink.write_error"}}
 	propWorld["C02"] = "logworld"
 	propWorld["C03"] = "logworld"
 	worlds["filterworld"].probes = map[string][]string{
@@ -765,7 +765,8 @@ func checkProc(prop, tier string, seed uint64, runsOverride int, keep bool) int 
 		Concurrent int            `json:"concurrent_launches"`
 		Distinct   int            `json:"distinct_schedules"`
 		Failing    []struct {
-			Plan      map[string]any `json:"plan"`
+			Plan      map[string]any   `json:"plan"`
+			Peers     []map[string]any `json:"group_plans"`
 			Violation struct {
 				Class  string `json:"class"`
 				Detail string `json:"detail"`
@@ -807,17 +808,23 @@ func checkProc(prop, tier string, seed uint64, runsOverride int, keep bool) int 
 		if known {
 			continue
 		}
-		// the minimised schedule is the single forced launch, alone
+		// the minimised schedule is the single forced launch, alone; a
+		// violation inside a burst is replayed as that burst
 		plan := f.Plan
-		plan["group"] = 0
-		plan["name"] = "h0"
+		rep := map[string]any{"property": prop, "world": "procworld", "seed": seed, "plan": plan, "violation": f.Violation, "events": f.Events, "tree": treeID()}
+		if b, _ := plan["burst"].(bool); b && len(f.Peers) > 1 {
+			rep["plans"] = f.Peers
+		} else {
+			plan["group"] = 0
+			plan["name"] = "h0"
+		}
 		path := filepath.Join(verifDir, "replays", fmt.Sprintf("%s-%d-%d.json", prop, seed, nViol))
-		rb, _ := json.MarshalIndent(map[string]any{"property": prop, "world": "procworld", "seed": seed, "plan": plan, "violation": f.Violation, "events": f.Events, "tree": treeID()}, "", " ")
+		rb, _ := json.MarshalIndent(rep, "", " ")
 		os.WriteFile(path, rb, 0644)
 		ro, code := runTool(bin, "-replay", path)
 		fmt.Print(ro)
 		if code != 1 {
-			fmt.Fprintf(os.Stderr, "simcheck: the violation (%s) does not replay as a single forced launch (exit %d): infrastructure trouble, not a verdict\n", f.Violation.Detail, code)
+			fmt.Fprintf(os.Stderr, "simcheck: the violation (%s) does not replay (exit %d): infrastructure trouble, not a verdict\n", f.Violation.Detail, code)
 			return 2
 		}
 		nViol++
